@@ -15,7 +15,11 @@ Definition gs (i : Z) (o : list (Z * Z)) (cv : xq) : gsol := GS (Z.to_nat i) (ma
 Definition gc (cap nobjs div : Z) (con : bool) (dirs : list bool) : gcfg :=
   GC (Z.to_nat cap) (Z.to_nat nobjs) (Z.to_nat div) con dirs.
 
-Inductive gop := OAdd (s : gsol) | ORem (s : gsol).
+(* OBulk l : a bulk entry point that inserts (append, extend, +=  with a list / generator / single
+   solution / another archive, whose members at that moment are l): Archive.append/extend/__iadd__
+   (core.py:1084-1105, 1132-1139) call self.add for each element in order, i.e. a fold of add; their
+   own return value is not compared (observed as true). *)
+Inductive gop := OAdd (s : gsol) | ORem (s : gsol) | OBulk (l : list gsol).
 
 (* what the implementation showed after the operation: return value, ids of the members in
    order, minimum, maximum, the whole density table *)
@@ -38,7 +42,11 @@ Definition obs_match (a : garch) (r : bool) (o : gobs) : bool :=
   list_eqb (fun n z => Z.of_nat n =? z) (a_dens a) (o_dens o).
 
 Definition g_apply (cfg : gcfg) (a : garch) (op : gop) : option (garch * bool) :=
-  match op with OAdd s => ga_add cfg a s | ORem s => ga_remove cfg a s end.
+  match op with
+  | OAdd s => ga_add cfg a s
+  | ORem s => ga_remove cfg a s
+  | OBulk l => match ga_fold true cfg a l with Some a' => Some (a', true) | None => None end
+  end.
 
 Fixpoint g_steps (cfg : gcfg) (a : garch) (ops : list (gop * gobs)) : bool :=
   match ops with
